@@ -218,6 +218,16 @@ def execute(scenario, chooser):
             sim.sleep(op['d'])
             return
         data = {k: v for k, v in op.items() if k != 'op'}
+        if kind == 'is_running':
+            # has the thread of the job of that name already ended (its
+            # completion callback included)?
+            data['ended'] = False
+            for spec in scenario['jobs']:
+                if spec['name'] == op['name']:
+                    ag = state['agents'].get(spec['id'])
+                    th = getattr(ag, '_thread', None) if ag else None
+                    stt = getattr(th, '_st', None) if th else None
+                    data['ended'] = stt is not None and stt.state == 'done'
         inv = hist.add('inv', op=kind, client=cidx, **data)
         ret = None
         exc = None
@@ -437,6 +447,11 @@ def check_history(scenario, ev, final, violation, sim):
             if jid is None:
                 continue
             verdict = _expect_running(jobs[jid], jid, o, ops, start, end, ev)
+            if o.get('ended') and o['value'] is True:
+                violation('running-report',
+                          'is_running({!r}) returned True although the '
+                          'job\'s thread (completion callback included) had '
+                          'ended before the call'.format(o['name']))
             if verdict == 'overlap':
                 sim.count('observer_overlapped')
             elif verdict is not None and verdict != o['value']:
